@@ -297,6 +297,9 @@ def finish(prop, tier, seed, mod, results, failed, wall, nshards) -> int:
         what = kf.get(k, {}).get("what_fails", k)
         print(f"KNOWN-FINDING: property={prop} [{k}] {what} (observed {v['count']}x this run)")
     rc = 0
+    if os.environ.get("JV_DEBUG"):
+        for v in violations:
+            print("  DEBUG violation:", v["why"][:int(os.environ.get("JV_DEBUG_LEN", "220"))].replace("\n", " "))
     if nviol:
         rdir = os.path.join(VERIF, "replays", prop)
         os.makedirs(rdir, exist_ok=True)
